@@ -106,7 +106,9 @@ func genC17(t *rapid.T) c17Plan {
 	// item of 85-94% of the capacity (as the repository's TestPrune does) and
 	// crosses it soon; "quantum" fills a 1 MB store with items <= 5% of it;
 	// "cap0" is the edge configuration in which every put runs a pruning pass.
-	mode := rapid.SampledFrom([]string{"small", "bigfirst", "bigfirst", "quantum", "quantum", "cap0"}).Draw(t, "mode")
+	// "nearbig": the nearest item alone is more than 95% of the capacity and the few farther ones less than 5%,
+	// so the pass that the crossing put triggers has to drop everything the store holds.
+	mode := rapid.SampledFrom([]string{"small", "bigfirst", "bigfirst", "quantum", "quantum", "cap0", "nearbig", "nearbig"}).Draw(t, "mode")
 	p.CapMB, p.Shape = 1, mode
 	lo, hi := 1, 15
 	switch mode {
@@ -117,6 +119,17 @@ func genC17(t *rapid.T) c17Plan {
 		p.Ops = append(p.Ops, histOp{Op: "put", ID: idRef{Kind: "dist", Dist: genDist(t)}, Len: rapid.IntRange(880_000, 960_000).Draw(t, "first"), Seed: rapid.Uint32().Draw(t, "seed")})
 	case "quantum":
 		lo, hi = 27, 40
+	case "nearbig":
+		lo, hi = 0, 4
+		near := make([]byte, 32)
+		near[31] = rapid.ByteRange(1, 255).Draw(t, "nearLow")
+		p.Ops = append(p.Ops, histOp{Op: "put", ID: idRef{Kind: "dist", Dist: near}, Len: rapid.IntRange(951_000, 990_000).Draw(t, "nearLen"), Seed: rapid.Uint32().Draw(t, "seed")})
+		for i, k := 0, rapid.IntRange(4, 9).Draw(t, "farN"); i < k; i++ {
+			far := make([]byte, 32)
+			far[0] = rapid.ByteRange(0x80, 0xff).Draw(t, "farHigh")
+			far[1], far[31] = byte(i), rapid.Byte().Draw(t, "farLow")
+			p.Ops = append(p.Ops, histOp{Op: "put", ID: idRef{Kind: "dist", Dist: far}, Len: rapid.IntRange(6_000, 11_000).Draw(t, "farLen"), Seed: rapid.Uint32().Draw(t, "seed")})
+		}
 	}
 	n := rapid.IntRange(lo, hi).Draw(t, "n")
 	genLen := func() int {
